@@ -106,13 +106,23 @@ def site_mutations(spec, site):
     return [(j, m) for j, m in enumerate(spec["mutations"]) if m[0] == site]
 
 
-def allele_at(spec, site, u, par=None):
+def mutations_by_site(spec):
+    """site id -> [(row, mutation), ...] in table order, for all sites at once (linear in the table)."""
+    out = [[] for _ in spec["sites"]]
+    for j, m in enumerate(spec["mutations"]):
+        if 0 <= m[0] < len(out):
+            out[m[0]].append((j, m))
+    return out
+
+
+def allele_at(spec, site, u, par=None, site_muts=None):
     """Derived state of the last-listed mutation on the first node on the path u -> root that
-    carries a mutation at this site, else the ancestral state."""
+    carries a mutation at this site, else the ancestral state.  `site_muts` may carry the precomputed
+    site_mutations(spec, site)."""
     if par is None:
         par = parent_at(spec, F(spec["sites"][site][0]))
     on = {}
-    for j, m in site_mutations(spec, site):
+    for j, m in (site_mutations(spec, site) if site_muts is None else site_muts):
         on[m[1]] = m[2]  # later rows overwrite earlier ones: last listed wins
     v = u
     while v >= 0:
@@ -122,7 +132,7 @@ def allele_at(spec, site, u, par=None):
     return spec["sites"][site][1]
 
 
-def is_missing(spec, site, u, par=None, ch=None):
+def is_missing(spec, site, u, par=None, ch=None, site_muts=None):
     """u is an isolated sample (no parent, no children at the site) with no mutation on it."""
     if par is None:
         par = parent_at(spec, F(spec["sites"][site][0]))
@@ -132,7 +142,7 @@ def is_missing(spec, site, u, par=None, ch=None):
         return False
     if par[u] >= 0 or ch[u]:
         return False
-    return not any(m[1] == u for _, m in site_mutations(spec, site))
+    return not any(m[1] == u for _, m in (site_mutations(spec, site) if site_muts is None else site_muts))
 
 
 def mutation_parents(spec):
